@@ -1,6 +1,7 @@
 import AioModel.C11
 import AioModel.C11Conc
 import AioProps.C11Lemmas
+import AioProps.C11ConcLemmas
 import AioProps.C12
 /-!
 # C11 — property theorems (writer model `AioModel/C11.lean` → reader model `AioModel/C12.lean`)
@@ -128,5 +129,42 @@ theorem codec_roundtrip_plain (cfg : WCfg) (c : Cfg) (hcfg : cfg.compress = 0) (
   refine ⟨by rw [h1, hm]; rfl, h3, ?_⟩
   unfold retained
   rw [h2, h1, hidle.2.1, hidle.2.2.1]; rfl
+
+example : (feedAll (Z := toyInflater) ⟨0, false, true, 100⟩ {}
+      [(sendAll (D := ⟨Unit, fun _ => (), fun _ m _ => ((), m)⟩) ⟨true, 0, false, 100⟩ {}
+        [⟨1, [0x68, 0x69], 0, [1, 2, 3, 4]⟩, ⟨9, [], 0, [9, 9, 9, 9]⟩]).ws.out]).p.k.msgs
+    = [.text [0x68, 0x69], .ping []] := by decide +kernel
+
+/-! ## concurrent senders (model `AioModel/C11Conc.lean`) -/
+
+/-- **wire order = compress order, on every schedule.**  After any sequence of labels — tasks
+calling `send_frame` on any route, senders cancelled at any point, the executor finishing at any
+time, event-loop iterations — the order in which the shared compressor was applied to messages
+is the order in which their frames were written to the transport, followed by at most the one
+message whose compression is still running in the executor; and that job's task holds the
+lock.  This is what keeps the history-dependent deflate context of writer and reader in step. -/
+theorem wire_order_eq_compress_order (ls : List Conc.Label) :
+    (Conc.run {} ls).compLog = (Conc.run {} ls).wire ++ (Conc.run {} ls).inExec.toList ∧
+    ((Conc.run {} ls).inExec.isSome → (Conc.run {} ls).locked = true) := by
+  have h := Conc.run_inv ls {} Conc.inv_init
+  exact ⟨h.order, h.execLocked⟩
+
+/-- …so whenever no compression is in flight the two orders are equal. -/
+theorem wire_order_eq_compress_order_idle (ls : List Conc.Label) (h : (Conc.run {} ls).inExec = none) :
+    (Conc.run {} ls).compLog = (Conc.run {} ls).wire := by
+  have := (wire_order_eq_compress_order ls).1
+  rw [h] at this; simpa using this
+
+/-- The lock is never handed to two tasks: at most the head of the waiter queue has been woken,
+and nobody is woken while the lock is held (no barging past a woken waiter). -/
+theorem lock_handover_unique (ls : List Conc.Label) :
+    ((Conc.run {} ls).locked = true → ∀ w ∈ (Conc.run {} ls).waiters, Conc.wok w = false) ∧
+    (∀ w ∈ (Conc.run {} ls).waiters.tail, Conc.wok w = false) := by
+  have h := Conc.run_inv ls {} Conc.inv_init
+  exact ⟨h.noWoken, h.wokenHead⟩
+
+-- a schedule with a cancelled waiter and an executor job: frames 3 (plain), 1, then 4
+example : (Conc.run {} [.spawn 1 .exec, .spawn 2 .sync, .spawn 3 .plain, .tick, .cancel 2, .spawn 4 .sync,
+      .execDone, .tick, .tick, .tick]).wireAll = [3, 1, 4] := by decide +kernel
 
 end Aio.C11
